@@ -109,6 +109,7 @@ pub enum Op {
     Double,
     Coset(usize), // replace the representative by P + T_{2k}
     Recompress,
+    Select(usize), // conditional_select / conditional_assign against a pool element
 }
 
 #[derive(Clone, Debug, PartialEq, Eq, Hash)]
@@ -154,7 +155,7 @@ impl Model for Machine {
         for i in 0..self.pool.len() {
             out.extend([Op::Add(i), Op::Sub(i), Op::RSub(i)]);
             if s.depth == 0 {
-                out.extend([Op::AddAssign(i), Op::SubAssign(i)]);
+                out.extend([Op::AddAssign(i), Op::SubAssign(i), Op::Select(i)]);
             }
         }
     }
@@ -186,6 +187,20 @@ impl Model for Machine {
                     (hook::ristretto_from_inner(&shifted), s.m)
                 }
                 Op::Recompress => (p.compress().decompress().expect("own encoding"), s.m),
+                Op::Select(i) => {
+                    use subtle::{Choice, ConditionallySelectable};
+                    // choice 0 keeps the first operand, choice 1 takes the second: the result must be
+                    // representation-identical to the chosen operand
+                    let keep = RistrettoPoint::conditional_select(&p, &pool[i].real, Choice::from(0));
+                    let take = RistrettoPoint::conditional_select(&pool[i].real, &p, Choice::from(1));
+                    let mut asg = pool[i].real;
+                    asg.conditional_assign(&p, Choice::from(1));
+                    let want = coords_of(&hook::ristretto_inner(&p));
+                    for q in [&keep, &take, &asg] {
+                        assert!(coords_of(&hook::ristretto_inner(q)) == want, "RistrettoPoint conditional_select/assign does not return the chosen operand");
+                    }
+                    (take, s.m)
+                }
             }
         });
         let fail = |e: String| St { depth: s.depth + 1, c: s.c.clone(), m: s.m, bad: Some(format!("{:?}: {}", a, e)) };
